@@ -45,11 +45,92 @@ fn make(prim: &str, flavour: &str, cfg: &[u64]) -> Option<Box<dyn Exec>> {
         ("state", "shared") => Box::new(state::SharedState::<Sync>::new(cfg)),
         ("timer", "local") => Box::new(timer::LocalTimerExec::<Local>::new(cfg)),
         ("timer", "sync") => Box::new(timer::SyncTimerExec::<Sync>::new(cfg)),
+        ("ringbuf", "zst") => return ringbuf::make_zst(cfg),
         ("ringbuf", _) => return ringbuf::make(cfg),
         ("dlist", _) => Box::new(dlist::DListExec::new(cfg)),
         ("pheap", _) => Box::new(pheap::PHeapExec::new(cfg)),
         _ => return None,
     })
+}
+
+/// thread that executes `op` (position `idx` of the history) in a threaded run: operations on a
+/// future slot belong to the thread owning the slot, everything else is dealt round-robin
+fn owner(prim: &str, idx: usize, op: &[u64], t: usize) -> usize {
+    let slot_op = match (prim, op.first().copied().unwrap_or(99)) {
+        ("event", 0..=2) | ("mutex", 0..=2) | ("semaphore", 0..=2) => true,
+        ("mpmc", 0..=6) | ("mpmc", 30..=32) => true,
+        ("oneshot", 2..=4) => true,
+        ("timer", 1..=4) => true,
+        _ => false,
+    };
+    if slot_op && op.len() >= 2 {
+        op[1] as usize % t
+    } else if prim == "timer" && op.first() == Some(&0) {
+        0 // the clock is advanced by one thread (monotone in program order)
+    } else {
+        idx % t
+    }
+}
+
+struct SendExec(Box<dyn Exec>);
+unsafe impl Send for SendExec {}
+
+/// Threaded run: `t` threads over one primitive, every thread executes its share of the history
+/// in history order; each executed operation is stamped with a global ticket before the call and
+/// after it returned.  Output: `<start> <end>|<obs>` per operation, `-` for one that was not
+/// applicable in the thread's local state.
+fn threaded(prim: &str, ex: Box<dyn Exec>, t: usize, ops: &[Vec<u64>]) -> String {
+    let mut views: Vec<SendExec> = Vec::new();
+    for _ in 1..t {
+        match ex.share() {
+            Some(v) => views.push(SendExec(v)),
+            None => return "UNSUPPORTED".into(),
+        }
+    }
+    let mut execs: Vec<SendExec> = vec![SendExec(ex)];
+    execs.append(&mut views);
+    let mut plans: Vec<Vec<(usize, Vec<u64>)>> = vec![Vec::new(); t];
+    for (i, op) in ops.iter().enumerate() {
+        plans[owner(prim, i, op, t)].push((i, op.clone()));
+    }
+    let barrier = std::sync::Barrier::new(t);
+    let mut results: Vec<Option<String>> = vec![None; ops.len()];
+    let outs: Vec<(SendExec, Vec<(usize, String)>)> = std::thread::scope(|sc| {
+        let hs: Vec<_> = execs
+            .into_iter()
+            .zip(plans.into_iter())
+            .map(|(mut e, plan)| {
+                let barrier = &barrier;
+                sc.spawn(move || {
+                    silence_panics();
+                    let mut res = Vec::with_capacity(plan.len());
+                    barrier.wait();
+                    for (i, op) in plan {
+                        let s = TICKET.fetch_add(1, std::sync::atomic::Ordering::SeqCst);
+                        let o = e.0.step(&op);
+                        let f = TICKET.fetch_add(1, std::sync::atomic::Ordering::SeqCst);
+                        if o.r.first() != Some(&R_BADOP) {
+                            res.push((i, format!("{} {}|{}", s, f, o.render())));
+                        }
+                    }
+                    (e, res)
+                })
+            })
+            .collect();
+        hs.into_iter().map(|h| h.join().unwrap()).collect()
+    });
+    let mut keep = Vec::new();
+    for (e, res) in outs {
+        for (i, r) in res {
+            results[i] = Some(r);
+        }
+        keep.push(e);
+    }
+    // views first, the owner of the primitive last
+    while let Some(e) = keep.pop() {
+        drop(e);
+    }
+    results.into_iter().map(|r| r.unwrap_or_else(|| "-".into())).collect::<Vec<_>>().join(";")
 }
 
 fn nums(s: &str) -> Vec<u64> {
@@ -72,6 +153,11 @@ fn main() {
         match make(prim, &flavour, &cfg) {
             None => {
                 writeln!(out, "UNSUPPORTED").unwrap();
+            }
+            Some(ex) if mode.starts_with('P') => {
+                let t: usize = mode[1..].parse().unwrap_or(2);
+                writeln!(out, "{}", threaded(prim, ex, t, &ops)).unwrap();
+                reset_values();
             }
             Some(mut ex) => {
                 let mut rendered: Vec<String> = Vec::new();
